@@ -24,7 +24,7 @@ use sciparse::path::metadata::{PathMetadata, path_interface::PathInterface};
 use sciparse::path::policy::acl::{AclEntry, AclEntryOperator, AclPolicy};
 use sciparse::path::policy::hop_pattern::HopPatternPolicy;
 use sciparse::path::policy::types::{HopPredicate, InterfacesPredicate, PathPolicyHop};
-use sciparse::path::policy::{PathPolicy, Policy};
+use sciparse::path::policy::{PathPolicy, Policy, WeightedPolicies};
 use serde_json::{Value, json};
 use vh_core::{NdjsonWriter, Rng};
 
@@ -515,6 +515,8 @@ fn tok_texts(toks: &[Value]) -> (String, String) {
             "plus" => "+".into(),
             "star" => "*".into(),
             "lp" => "(".into(),
+            "bang" => "!".into(),
+            "and" => "&".into(),
             _ => ")".to_string(),
         };
         if !spaced.is_empty() {
@@ -721,7 +723,7 @@ fn record(trace_path: &str, out_path: &str) {
         items.push(TextItem { texts, ws, other_parsers: false });
     }
     // random token strings: syntax and meaning
-    let tok_pool = ["p", "p", "p", "or", "opt", "plus", "star", "lp", "rp"];
+    let tok_pool = ["p", "p", "p", "p", "or", "or", "opt", "opt", "plus", "plus", "star", "star", "lp", "lp", "rp", "rp", "bang", "and"];
     let mut tokss: Vec<Vec<Value>> = Vec::new();
     for _ in 0..ntok {
         let n = rng.below(13);
@@ -811,8 +813,58 @@ fn record(trace_path: &str, out_path: &str) {
             lines += 1;
         }
     }
+    // Policy { acl, hop_pattern } and WeightedPolicies::match_highest (non-empty hop sequences only: the
+    // empty path is the separately keyed ACL finding)
+    let nwp = 150 * scale;
+    for _ in 0..nwp {
+        let np = 1 + rng.below(4);
+        let mut pols_json: Vec<Value> = Vec::new();
+        let mut pols: Vec<(u8, Policy)> = Vec::new();
+        let mut weights: Vec<u8> = Vec::new();
+        while (weights.len() as u64) < np {
+            let w = rng.below(256) as u8;
+            if !weights.contains(&w) {
+                weights.push(w);
+            }
+        }
+        for &w in &weights {
+            let hasacl = rng.chance(2, 3);
+            let haspat = rng.chance(2, 3);
+            let a = AclV { entries: (0..rng.below(4)).map(|_| (rng.chance(1, 2), rand_pred(&mut rng, false))).collect(), def: rng.chance(2, 3) };
+            let n = rng.below(3);
+            let pat: Vec<E> = (0..n).map(|_| rand_expr(&mut rng, 3)).collect();
+            let mut nosep = || String::new();
+            let text = pat_text(&pat, 0, &mut nosep, false);
+            let parsed = if haspat { parse_pattern(&mut m, &text) } else { None };
+            if haspat && parsed.is_none() {
+                m.pv("Reject:pattern".into(), format!("the printed form {text:?} of a pattern is rejected by the parser"), json!({"kind": "text", "text": text}));
+                continue;
+            }
+            pols.push((w, Policy::new(if hasacl { Some(acl_build(&a)) } else { None }, parsed)));
+            pols_json.push(json!({"w": w, "hasacl": hasacl, "acl": acl_json(&a), "haspat": haspat, "pat": pat.iter().map(e_json).collect::<Vec<_>>(), "text": text}));
+        }
+        let wp = WeightedPolicies::new(pols);
+        let ws: Vec<Vec<PathPolicyHop>> = (0..6).map(|_| { let mut w = rand_w(&mut rng, 6); if w.is_empty() { w.push(rand_hop(&mut rng)); } w }).collect();
+        let mut real: Vec<i64> = Vec::new();
+        let mut okline = true;
+        for w in &ws {
+            m.evals += 1;
+            match vh_core::catch(|| wp.match_highest(w).map(|chosen| wp.policies.iter().find(|(_, p)| std::ptr::eq(*p, chosen)).map(|(k, _)| *k as i64).unwrap_or(-2))) {
+                Ok(Some(k)) => real.push(k),
+                Ok(None) => real.push(-1),
+                Err(msg) => {
+                    okline = false;
+                    m.pv("Panic:weighted".into(), format!("WeightedPolicies::match_highest panics: {msg}"), json!({"pols": pols_json, "w": w_json(w)}));
+                }
+            }
+        }
+        if okline {
+            tw.write(&json!({"ev": "wp", "pols": pols_json, "ws": ws.iter().map(|w| w_json(w)).collect::<Vec<_>>(), "real": real}));
+            lines += 1;
+        }
+    }
     tw.finish();
-    let out = json!({"lines": lines, "evals": m.evals, "patterns": npat, "acls": nacl, "token_strings": ntok, "token_strings_accepted": accepted_tok,
+    let out = json!({"lines": lines, "evals": m.evals, "patterns": npat, "weighted_sets": nwp, "acls": nacl, "token_strings": ntok, "token_strings_accepted": accepted_tok,
         "char_strings": nstr, "char_strings_accepted": accepted_str, "pv": m.pv, "pv_counts": m.per_key});
     std::fs::write(out_path, serde_json::to_string_pretty(&out).unwrap()).expect("write result");
 }
